@@ -290,6 +290,10 @@ def refcache_view(cache, syms):
     return out
 
 
+class _Injected(Exception):
+    """the exception the history raises inside the cache context on purpose"""
+
+
 def reference_cache_bounded(tier, seed):
     def run():
         br = BResult()
@@ -352,7 +356,7 @@ def reference_cache_bounded(tier, seed):
                                 fail = ("ReferenceCache/apply-and-exit-materialise-everything-even-on-exceptions", "apply left indirect references")
                         else:
                             trace.append((op,))
-                            raise KeyError("injected")
+                            raise _Injected("injected")
                         if fail:
                             break
                         try:
@@ -363,8 +367,11 @@ def reference_cache_bounded(tier, seed):
                         if v != model:
                             fail = ("ReferenceCache/abstract-referents-equal-direct-assignment", "view %s model %s" % (v, model))
                             break
-            except KeyError:
+            except _Injected:
                 pass
+            except Exception as ex:      # noqa  -- the cache itself failed (assertion in apply(), KeyError in a lookup, ...) on a legal history
+                if not fail:
+                    fail = ("ReferenceCache/apply-and-exit-materialise-everything-even-on-exceptions", "%s raised by the cache: %s" % (type(ex).__name__, str(ex)[:100]))
             if not fail:
                 direct = {s.name: (s.referent.uuid if s.referent else None, s.at_end) for s in syms}
                 if direct != model:
